@@ -62,6 +62,10 @@ pub enum SortCallback {
     CandsOfMentioned,
 }
 
+/// Token returned when the harness's wall-clock monitor asked a looping execution to stop.
+#[derive(Debug)]
+pub struct Killed;
+
 /// The cancellation token carried by `Cancelled`.
 #[derive(Debug, PartialEq, Eq)]
 pub struct Token(pub u32);
@@ -252,6 +256,9 @@ impl DependencyProvider for Prov<'_> {
     }
 
     fn should_cancel_with_value(&self) -> Option<Box<dyn Any>> {
+        if crate::sweep::kill_requested() {
+            return Some(Box::new(Killed));
+        }
         let k = self.polls.get();
         self.polls.set(k + 1);
         let fire = match self.cancel.get() {
